@@ -94,6 +94,16 @@ func buildJail(base string) (string, string) {
 		sc.MarkComplete(1)
 		_ = sc.Flush()
 	}
+	// sidecars named like the hostile manifest's own item ids (the receiver's
+	// fallback location is <out>/<root>/.thruflux_resumedata/<id>.sbxmap): one
+	// that matches the offered file's identity and one that does not
+	if sc, err := transfer.CreateSidecar(filepath.Join(vdir, "00112233aabbccdd.sbxmap"), "00112233aabbccdd", 24, 16); err == nil {
+		sc.MarkComplete(0)
+		_ = sc.Flush()
+	}
+	if sc, err := transfer.CreateSidecar(filepath.Join(vdir, "eeee0000eeee0000.sbxmap"), "other", 999, 7); err == nil {
+		_ = sc.Flush()
+	}
 	// the same inside out (to see that the tool's own data there may be touched freely)
 	return jail, out
 }
@@ -124,6 +134,7 @@ func hostileMultistream(ctx context.Context, conn transfer.Conn, c c07Case, jail
 	payload := []byte("ATTACKER-DATA-0123456789")
 	it := manifest.FileItem{RelPath: "ok/file.bin", Size: int64(len(payload)), ModTime: 1, ID: "00112233aabbccdd"}
 	dir := manifest.FileItem{RelPath: "ok", IsDir: true, ModTime: 1, ID: "ddccbbaa33221100"}
+	empty := manifest.FileItem{RelPath: "ok/zero.bin", Size: 0, ModTime: 1, ID: "eeee0000eeee0000"}
 	m := manifest.Manifest{Root: "root", FileCount: 1, FolderCount: 1, TotalBytes: it.Size}
 	beginPath := it.RelPath
 	switch c.Field {
@@ -136,11 +147,15 @@ func hostileMultistream(ctx context.Context, conn transfer.Conn, c c07Case, jail
 		dir.RelPath = c.Str
 	case "item.id":
 		it.ID = c.Str
+	case "item.id(empty-file)":
+		empty.ID = c.Str
 	case "filebegin.rel_path":
 		beginPath = c.Str // manifest stays clean: FileBegin alone carries the string
 	}
-	m.Items = []manifest.FileItem{dir, it}
+	m.Items = []manifest.FileItem{dir, it, empty}
+	m.FileCount = 2
 	key := transfer.VerifCoreFileKey(it)
+	emptyKey := transfer.VerifCoreFileKey(empty)
 
 	ctrl, err := conn.OpenStream(ctx)
 	if err != nil {
@@ -165,6 +180,9 @@ func hostileMultistream(ctx context.Context, conn transfer.Conn, c c07Case, jail
 	}
 	_, _ = data.Write(chunkFrame(key, 1, payload[16:]))
 	_ = transfer.VerifCoreWriteFileEnd(ctrl, transfer.FileEnd{StreamID: key})
+	// the zero-length file: FileBegin (chunk size set, as real senders do) and FileEnd
+	_, _ = ctrl.Write(rawFileBegin(empty.RelPath, 0, 16, emptyKey))
+	_ = transfer.VerifCoreWriteFileEnd(ctrl, transfer.FileEnd{StreamID: emptyKey})
 	// wait for FileDone (or an error / close)
 	done := make(chan struct{})
 	go func() {
@@ -248,7 +266,7 @@ func attackStrings(jail string, r *vk.Rng, extra int) [][2]string {
 		{"double-slash", "a//b"}, {"trailing-slash", "evil_dir/"}, {"backslash-dotdot", "..\\evil"}, {"backslash-mid", "a\\..\\..\\evil"},
 		{"nul", "a\x00../evil"}, {"long", strings.Repeat("L", 1100)}, {"long-dotdot", "../" + strings.Repeat("M", 1030)},
 		{"dot-slash-dotdot", "./../evil"}, {"triple-dot", ".../evil"}, {"dotdot-suffix", "evil/.."}, {"dotdot-suffix2", "a/b/../.."},
-		{"sibling-sidecar", "../victim/" + vk.ResumeDirName + "/x"}, {"sibling-dir", "../dircanary/f"}, {"sibling-file", "../sibling.txt"},
+		{"sibling-sidecar", "../victim/" + vk.ResumeDirName + "/x"}, {"sibling-victim-dir", "../victim"}, {"sibling-victim-dir-deep", "a/../../victim"}, {"sibling-dir", "../dircanary/f"}, {"sibling-file", "../sibling.txt"},
 		{"percent", "%2e%2e/evil"}, {"tilde", "~/evil"}, {"unicode-dots", "．．/evil"}, {"leading-slash-rel", "/evil"},
 		{"resume-dir-name", vk.ResumeDirName}, {"dotdot-resume", "../" + vk.ResumeDirName},
 	}
@@ -283,7 +301,7 @@ func runC07(e *Env) {
 		cases = append(cases, c)
 	}
 	for _, s := range strs {
-		for _, f := range []string{"manifest.root", "item.rel_path(file)", "item.rel_path(dir)", "item.id", "filebegin.rel_path"} {
+		for _, f := range []string{"manifest.root", "item.rel_path(file)", "item.rel_path(dir)", "item.id", "item.id(empty-file)", "filebegin.rel_path"} {
 			for _, nr := range []bool{true, false} {
 				for _, res := range []bool{true, false} {
 					add(c07Case{Target: "multistream", Field: f, Str: s[1], StrName: s[0], NoRoot: nr, Resume: res})
